@@ -431,6 +431,12 @@ class Exporter {
             }
         } else if (auto *DM = dyn_cast<CXXDependentScopeMemberExpr>(S)) {
             j.str("n", DM->getMember().getAsString());
+            if (NestedNameSpecifier *Q = DM->getQualifier()) {
+                std::string              qs;
+                llvm::raw_string_ostream qos(qs);
+                Q->print(qos, PP);
+                j.str("qual", qos.str());
+            }
             j.boolean("arrow", DM->isArrow());
             j.boolean("implicit", DM->isImplicitAccess());
             defaultKids = false;
@@ -444,6 +450,12 @@ class Exporter {
             j.raw("cands", jlist(c));
         } else if (auto *UM = dyn_cast<UnresolvedMemberExpr>(S)) {
             j.str("n", UM->getMemberName().getAsString());
+            if (NestedNameSpecifier *Q = UM->getQualifier()) {
+                std::string              qs;
+                llvm::raw_string_ostream qos(qs);
+                Q->print(qos, PP);
+                j.str("qual", qos.str());
+            }
             j.boolean("arrow", UM->isArrow());
             j.boolean("implicit", UM->isImplicitAccess());
             std::vector<std::string> c;
